@@ -116,6 +116,8 @@ class SpecFn:
         d = depth.get(self.__name__, 0)
         mkey = ("specfn", self.__name__, tuple(t.get_id() for t in ts))
         hit = eng.memo.get(mkey)
+        if self.__name__ in getattr(getattr(eng, "root_contract", eng.contract), "opaque_specs", ()):
+            return out      # this contract's proof uses the spec function by congruence only: never unfold its definition
         if d < self.unfold and (hit is None or not all(x.eq(y) for x, y in zip(hit[0], ts))):
             eng.memo[mkey] = (ts, app)
             depth[self.__name__] = d + 1
